@@ -901,7 +901,7 @@ def render(n, ind=0):
 
 
 # ---------------------------------------------------------------------- structured guards
-def nest(fn):
+def nest(fn, fatal=True):
     """Early exits become nested if/else: in the result, the chain of enclosing `if`s of a statement is its complete guard.
     Function level: `return` and calls that do not return end a statement list; inside loop bodies `continue` and `break`
     do as well.  A loop or switch containing a return is kept as an opaque statement at the level above (its exits add no
@@ -911,7 +911,7 @@ def nest(fn):
     errvars = paths.error_msg_vars(fn)
 
     def term(call):
-        return paths.is_noreturn_call(call, errvars)
+        return fatal and paths.is_noreturn_call(call, errvars)
 
     def is_jump(s, in_loop):
         k = s.get("k")
